@@ -159,8 +159,28 @@ func checkGenericRedaction(c *fw.Ctx) {
 	}
 	c.Min(rule+" content copies", updates, 1)
 	// (b) SetContent is called on every path to the success return, and the success value is json.Marshal of the projection
-	setc := fw.CallsTo(generic, false, func(n string) bool { return strings.HasSuffix(n, ".SetContent") })
-	c.Check(len(setc) >= 1, rule, "SetContent precedes marshalling", c.P.Pos(generic.Pos()), "", "the routine never installs the filtered content")
+	// the content setter of the projection, by name or by shape (one map[string]interface{}
+	// parameter, no result, called on the projection)
+	var setc []ssa.CallInstruction
+	for _, call := range fw.Calls(generic) {
+		n := fw.CalleeName(call)
+		if strings.HasSuffix(n, ".SetContent") {
+			setc = append(setc, call)
+			continue
+		}
+		sig := call.Common().Signature()
+		if sig == nil || sig.Results().Len() != 0 || sig.Params().Len() != 1 {
+			continue
+		}
+		if m, isMap := sig.Params().At(0).Type().Underlying().(*types.Map); isMap && (call.Common().IsInvoke() || sig.Recv() != nil) {
+			if _, isIface := m.Elem().Underlying().(*types.Interface); isIface {
+				setc = append(setc, call)
+			}
+		}
+	}
+	if len(setc) == 0 {
+		c.Undecided(rule, "SetContent precedes marshalling", "no content setter of the projection was recognised in the routine")
+	}
 	if len(setc) > 0 {
 		// paths that reach json.Marshal without SetContent keep the decoded content as it is: that
 		// is the "keep all fields" case and only right for a type listed with an empty keep-list
@@ -168,6 +188,7 @@ func checkGenericRedaction(c *fw.Ctx) {
 		for _, sc := range setc {
 			blocked[sc.Block()] = true
 		}
+		_ = types.Typ
 		pcs, okPC := fw.PathCondsAvoiding(generic, blocked)
 		verdict, detail := "ok", ""
 		for _, m := range fw.CallsTo(generic, false, fw.NameIs("encoding/json.Marshal")) {
